@@ -1,5 +1,332 @@
-(* Lemmas for C08-C12 (environment Model/Net.v, client Model/Client.v). *)
-From RP Require Import Lib.Base Lib.Varint Lib.Strings Model.Net Model.Client Spec.NetSpec.
+(* Lemmas for C08/C10/C11: the binary and ASCII read loops of Model/Client.v, run against the
+   environment of Model/Net.v, refine the reference stream reading of Spec/NetSpec.v
+   (walk_bin / walk_lines) - for every timed byte stream, every fuel, every close instant. *)
+From RP Require Import Lib.Base Lib.Varint Lib.Strings Model.Net Model.Client Spec.NetSpec Proofs.NetProbeProofs.
+From Coq Require Import ZifyBool.
 
 Lemma probe_bytes_eq : probe_bytes = [2; 0; 0; 0; 8; 1].
 Proof. reflexivity. Qed.
+
+(* ---------- list plumbing ---------- *)
+Lemma rev_append_nil {A} (l : list A) : rev_append l [] = rev l.
+Proof. rewrite rev_append_rev. apply app_nil_r. Qed.
+
+Lemma split_tr_acc {A} : forall (l : list A) k acc,
+  split_tr k l acc = match split_tr k l [] with Some (a, b) => Some (rev acc ++ a, b) | None => None end.
+Proof.
+  induction l as [|x r IH]; intros k acc; cbn.
+  - destruct (k <=? 0); [|reflexivity]. rewrite rev_append_nil. cbn. rewrite app_nil_r. reflexivity.
+  - destruct (k <=? 0).
+    + rewrite rev_append_nil. cbn. rewrite app_nil_r. reflexivity.
+    + rewrite (IH (k - 1) (x :: acc)). rewrite (IH (k - 1) [x]).
+      destruct (split_tr (k - 1) r []) as [[a b]|]; [|reflexivity]. cbn. rewrite <- app_assoc. reflexivity.
+Qed.
+
+Lemma split_tr_cons {A} : forall (x : A) r k, 1 <= k ->
+  split_tr k (x :: r) [] = match split_tr (k - 1) r [] with Some (a, b) => Some (x :: a, b) | None => None end.
+Proof.
+  intros x r k Hk. cbn. assert (E : k <=? 0 = false) by lia. rewrite E.
+  rewrite split_tr_acc. destruct (split_tr (k - 1) r []) as [[a b]|]; reflexivity.
+Qed.
+
+Lemma split_tr_le0 {A} : forall (l : list A) k, k <= 0 -> split_tr k l [] = Some ([], l).
+Proof. intros [|x r] k Hk; cbn; assert (E : k <=? 0 = true) by lia; rewrite E; reflexivity. Qed.
+
+Lemma split_tr_sound {A} : forall (l : list A) k a b, split_tr k l [] = Some (a, b) ->
+  l = a ++ b /\ zlen a = Z.max 0 k.
+Proof.
+  induction l as [|x r IH]; intros k a b H.
+  - cbn in H. destruct (k <=? 0) eqn:E; [|discriminate]. inversion H; subst. split; [reflexivity|]. unfold zlen; cbn. lia.
+  - destruct (Z_le_dec k 0).
+    + rewrite split_tr_le0 in H by lia. inversion H; subst. split; [reflexivity|]. unfold zlen; cbn. lia.
+    + rewrite split_tr_cons in H by lia. destruct (split_tr (k - 1) r []) as [[a' b']|] eqn:E; [|discriminate].
+      inversion H; subst. destruct (IH _ _ _ E) as [-> Hl]. split; [reflexivity|].
+      unfold zlen in *. cbn [length]. rewrite Nat2Z.inj_succ. lia.
+Qed.
+
+Lemma split_tr_none {A} : forall (l : list A) k, split_tr k l [] = None -> zlen l < k.
+Proof.
+  induction l as [|x r IH]; intros k H.
+  - cbn in H. destruct (k <=? 0) eqn:E; [discriminate|]. unfold zlen; cbn. lia.
+  - destruct (Z_le_dec k 0). { rewrite split_tr_le0 in H by lia. discriminate. }
+    rewrite split_tr_cons in H by lia. destruct (split_tr (k - 1) r []) as [[a' b']|] eqn:E; [discriminate|].
+    apply IH in E. unfold zlen in *. cbn [length]. rewrite Nat2Z.inj_succ. lia.
+Qed.
+
+Lemma split_tr_app {A} : forall (a b : list A), split_tr (zlen a) (a ++ b) [] = Some (a, b).
+Proof.
+  induction a as [|x a IH]; intro b.
+  - apply split_tr_le0. unfold zlen; cbn; lia.
+  - cbn [app]. rewrite split_tr_cons by (unfold zlen; cbn [length]; lia).
+    replace (zlen (x :: a) - 1) with (zlen a) by (unfold zlen; cbn [length]; lia).
+    rewrite IH. reflexivity.
+Qed.
+
+Lemma snds_map : forall l, snds l = map snd l.
+Proof.
+  intro l. unfold snds.
+  assert (H : forall (l : list (Z * Z)) acc, fold_left (fun a x => snd x :: a) l acc = rev (map snd l) ++ acc).
+  { induction l0 as [|x r IH]; intro acc; cbn; [reflexivity|]. rewrite IH. rewrite <- app_assoc. reflexivity. }
+  rewrite H, app_nil_r, rev_append_nil, rev_involutive. reflexivity.
+Qed.
+
+Lemma tmax_ge : forall l m, m <= tmax l m.
+Proof. induction l as [|[t b] r IH]; intro m; cbn; [lia|]. specialize (IH (Z.max m t)). lia. Qed.
+
+Lemma tmax_le : forall l m c, m <= c -> Forall (fun x => fst x <= c) l -> tmax l m <= c.
+Proof.
+  induction l as [|[t b] r IH]; intros m c Hm H; cbn; [lia|]. inversion H; subst. cbn in *. apply IH; [lia|assumption].
+Qed.
+
+Lemma take_tr_split : forall (l : list (Z * Z)) k acc tm, 1 <= k ->
+  take_tr k l acc tm =
+  match split_tr k l [] with Some (a, b) => Some (rev acc ++ map snd a, tmax a tm, b) | None => None end.
+Proof.
+  induction l as [|[t b] r IH]; intros k acc tm Hk.
+  - cbn. assert (E : k <=? 0 = false) by lia. rewrite E. reflexivity.
+  - cbn [take_tr]. rewrite split_tr_cons by lia. destruct (k <=? 1) eqn:E1.
+    + assert (k = 1) by lia. subst k. cbn [Z.sub]. rewrite split_tr_le0 by lia.
+      rewrite rev_append_nil. cbn. reflexivity.
+    + rewrite IH by lia. destruct (split_tr (k - 1) r []) as [[a b']|]; [|reflexivity].
+      cbn. rewrite <- app_assoc. reflexivity.
+Qed.
+
+(* sortedness *)
+Lemma tb_sorted_all_ge : forall (l : list (Z * Z)) m, tb_sorted m l = true -> Forall (fun x => m <= fst x) l.
+Proof.
+  induction l as [|[t b] r IH]; intros m H; constructor; cbn in *.
+  - lia.
+  - apply andb_true_iff in H. destruct H as [H1 H2]. specialize (IH t H2).
+    eapply Forall_impl; [|exact IH]. cbn. intros; lia.
+Qed.
+
+Lemma tb_sorted_app : forall (a b : list (Z * Z)) m, tb_sorted m (a ++ b) = true -> tb_sorted (tmax a m) b = true.
+Proof.
+  induction a as [|[t x] a IH]; intros b m H; cbn in *; [exact H|].
+  apply andb_true_iff in H. destruct H as [H1 H2]. replace (Z.max m t) with t by lia. apply IH. exact H2.
+Qed.
+
+(* ---------- reads on a stream with no local close ---------- *)
+Definition C (nw : Z) (tb : list (Z * Z)) (c : option (Z * bool)) : conn := mkConn nw tb c None.
+
+Definition end_reason (rst : bool) : reason := if rst then RReset else REof.
+
+(* the peer closes after everything it sent, and not before the reader's clock *)
+Definition close_after (c : option (Z * bool)) (nw : Z) (tb : list (Z * Z)) : Prop :=
+  match c with Some (ct, _) => nw <= ct /\ Forall (fun x => fst x <= ct) tb | None => True end.
+
+Lemma close_after_suffix : forall c nw (a b : list (Z * Z)), close_after c nw (a ++ b) -> close_after c (tmax a nw) b.
+Proof.
+  intros [[ct rst]|] nw a b H; cbn in *; [|exact I]. destruct H as [H1 H2].
+  apply Forall_app in H2. destruct H2 as [Ha Hb]. split; [|exact Hb]. apply tmax_le; assumption.
+Qed.
+
+Lemma read_full_pure : forall n dl nw tb c, 1 <= n ->
+  read_full n dl (C nw tb c) =
+  match split_tr n tb [] with
+  | Some (a, b) =>
+    match dl with
+    | Some d => if Z.max nw d <=? tmax a nw then (RErr ETimeout, C (Z.max nw d) tb c)
+                else (RData (map snd a), C (tmax a nw) b c)
+    | None => (RData (map snd a), C (tmax a nw) b c)
+    end
+  | None => finish_nodata (C nw tb c) dl
+  end.
+Proof.
+  intros n dl nw tb c Hn. unfold read_full. assert (E : n <=? 0 = false) by lia. rewrite E.
+  cbn [pend now C]. rewrite take_tr_split by lia. destruct (split_tr n tb []) as [[a b]|]; [|reflexivity].
+  cbn [rev app]. unfold finish_data, interrupt, C. cbn [lcl now cl pend set_now].
+  destruct dl as [d|]; reflexivity.
+Qed.
+
+Lemma finish_nodata_pure : forall dl nw tb c,
+  finish_nodata (C nw tb c) dl =
+  match c with
+  | Some (ct, rst) =>
+    match dl with
+    | Some d => if Z.max nw d <=? Z.max nw ct then (RErr ETimeout, C (Z.max nw d) tb c)
+                else (RErr (if rst then EReset else EEof), C (Z.max nw ct) tb c)
+    | None => (RErr (if rst then EReset else EEof), C (Z.max nw ct) tb c)
+    end
+  | None =>
+    match dl with
+    | Some d => (RErr ETimeout, C (Z.max nw d) tb c)
+    | None => (RBlocked, C nw tb c)
+    end
+  end.
+Proof.
+  intros dl nw tb c. unfold finish_nodata, interrupt, C. cbn [lcl now cl pend set_now].
+  destruct c as [[ct rst]|]; destruct dl as [d|]; reflexivity.
+Qed.
+
+Section Reader.
+Variable M : Type.
+Variable unmarshal : bytes -> M.
+Variable decode : bytes -> M.
+
+Fixpoint deliveries (o : list (cobs M)) : list (Z * M) :=
+  match o with
+  | [] => []
+  | ODeliver t m :: r => (t, m) :: deliveries r
+  | OAlloc _ _ :: r => deliveries r
+  end.
+Fixpoint allocs (o : list (cobs M)) : list Z :=
+  match o with
+  | [] => []
+  | OAlloc _ n :: r => n :: allocs r
+  | ODeliver _ _ :: r => allocs r
+  end.
+
+(* what the reference reading says the loop must end with *)
+Definition spec_outcome (f : option (Z * Z)) (c : option (Z * bool)) : outcome :=
+  match f with
+  | Some (t, k) =>
+    if k =? 2 then Dropped t RLimit
+    else match c with
+         | Some (ct, rst) => if t <=? ct then Dropped t RTimeout else Dropped ct (end_reason rst)
+         | None => Dropped t RTimeout
+         end
+  | None =>
+    match c with
+    | Some (ct, rst) => Dropped ct (end_reason rst)
+    | None => Waiting
+    end
+  end.
+
+Notation bin := (bin_loop M unmarshal).
+
+Ltac fin3 := cbn [fst snd deliveries allocs reason_of end_reason]; repeat split; try reflexivity; try (repeat constructor; unfold limit; lia).
+
+(* one iteration of the loop against one step of the reference reading *)
+Lemma bin_step : forall f nw tb c,
+  tb_sorted nw tb = true -> close_after c nw tb ->
+  match next_frame tb with
+  | FEnd => bin (S f) (C nw tb c) = ([], spec_outcome None c)
+  | FFault t k =>
+    deliveries (fst (bin (S f) (C nw tb c))) = [] /\
+    Forall (fun n => n < limit) (allocs (fst (bin (S f) (C nw tb c)))) /\
+    snd (bin (S f) (C nw tb c)) = spec_outcome (Some (t, k)) c
+  | FGood p te rest =>
+    exists t4 n, n < limit /\ nw <= te /\ (exists a, tb = a ++ rest /\ te = tmax a nw) /\
+      bin (S f) (C nw tb c) =
+      (OAlloc t4 n :: ODeliver te (unmarshal p) :: fst (bin f (C te rest c)), snd (bin f (C te rest c)))
+  end.
+Proof.
+  intros f nw tb c Hs Hc. unfold tbyte in *.
+  destruct tb as [|[t1 b1] r1].
+  { (* nothing pending *)
+    cbn [next_frame bin_loop]. unfold read_full. cbn [Z.leb Z.compare pend C take_tr].
+    rewrite finish_nodata_pure. destruct c as [[ct [|]]|]; cbn; try reflexivity;
+      cbn in Hc; destruct Hc as [Hc _]; replace (Z.max nw ct) with ct by lia; reflexivity. }
+  assert (Hnw : nw <= t1). { cbn in Hs. lia. }
+  assert (Hs1 : tb_sorted t1 r1 = true). { cbn in Hs. apply andb_true_iff in Hs. tauto. }
+  cbn [bin_loop]. rewrite (read_full_pure 1) by lia.
+  rewrite split_tr_cons by lia. cbn [Z.sub]. rewrite split_tr_le0 by lia.
+  cbn [map snd tmax]. replace (Z.max nw t1) with t1 by lia.
+  cbn [now C]. rewrite (read_full_pure 3) by lia.
+  unfold next_frame. rewrite (split_tr_cons (t1, b1) r1 4) by lia. cbn [Z.sub].
+  change (4 - 1) with 3.
+  destruct (split_tr 3 r1 []) as [[a3 r4]|] eqn:E3.
+  2:{ (* fewer than 4 bytes ever *)
+    rewrite finish_nodata_pure. replace (Z.max t1 (t1 + 2000)) with (t1 + 2000) by lia.
+    unfold spec_outcome, inframe. cbn [Z.eqb].
+    destruct c as [[ct [|]]|]; [| |fin3];
+      (cbn in Hc; destruct Hc as [Hc1 Hc2]; inversion Hc2; subst; cbn in H1;
+       replace (Z.max t1 ct) with ct by lia; destruct (t1 + 2000 <=? ct); fin3). }
+  destruct (split_tr_sound _ _ _ _ E3) as [Hr1 Hl3].
+  cbn [tmax]. replace (Z.max t1 t1) with t1 by lia.
+  replace (Z.max t1 (t1 + 2000)) with (t1 + 2000) by lia. unfold inframe.
+  destruct (t1 + 2000 <=? tmax a3 t1) eqn:Ehd.
+  { (* header not complete in time *)
+    unfold spec_outcome. cbn [Z.eqb].
+    destruct c as [[ct rst]|]; [|fin3].
+    cbn in Hc. destruct Hc as [Hc1 Hc2]. inversion Hc2; subst. cbn in H1.
+    assert (tmax a3 t1 <= ct). { apply tmax_le; [lia|]. apply Forall_app in H2. tauto. }
+    assert (E : t1 + 2000 <=? ct = true) by lia. rewrite E. fin3. }
+  cbn [now C]. rewrite snds_map. cbn [map snd]. change ([b1] ++ map snd a3) with (b1 :: map snd a3). rewrite !le32_dec_u32le.
+  set (t4 := tmax a3 t1) in *.
+  set (v := u32le (b1 :: map snd a3)).
+  unfold payload_limit, limit.
+  destruct (v <? 500000) eqn:Elim.
+  2:{ assert (E : 500000 <=? v = true) by lia. rewrite E. unfold spec_outcome. cbn [Z.eqb]. fin3. }
+  assert (E : 500000 <=? v = false) by lia. rewrite E. clear E.
+  assert (Hs4 : tb_sorted t4 r4 = true). { subst r1. apply (tb_sorted_app a3 r4 t1). exact Hs1. }
+  assert (Hc4 : close_after c t4 r4).
+  { subst r1. apply (close_after_suffix c t1 a3 r4).
+    destruct c as [[ct rst]|]; cbn in *; [|exact I]. destruct Hc as [Hc1 Hc2]. inversion Hc2; subst. cbn in H1. split; [lia|assumption]. }
+  destruct (Z_le_dec v 0) as [Hv0|Hv0].
+  { (* empty payload *)
+    unfold read_full. assert (E : v <=? 0 = true) by lia. rewrite E.
+    rewrite split_tr_le0 by lia. cbn [tmax]. rewrite snds_map. cbn [map].
+    assert (E2 : t4 + 2000 <=? t4 = false) by lia. rewrite E2.
+    exists t4, v. split; [unfold limit; lia|]. split; [pose proof (tmax_ge a3 t1); lia|].
+    split.
+    { exists ((t1, b1) :: a3). subst r1. split; [reflexivity|]. cbn [tmax]. replace (Z.max nw t1) with t1 by lia. reflexivity. }
+    cbn [now C]. destruct (bin_loop M unmarshal f (C t4 r4 c)); reflexivity. }
+  rewrite (read_full_pure v) by lia.
+  destruct (split_tr v r4 []) as [[p r5]|] eqn:Ep.
+  2:{ (* payload never complete *)
+    rewrite finish_nodata_pure. replace (Z.max t4 (t4 + 2000)) with (t4 + 2000) by lia.
+    unfold spec_outcome. cbn [Z.eqb].
+    destruct c as [[ct [|]]|]; [| |fin3];
+      (cbn in Hc4; destruct Hc4 as [Hc41 Hc42]; replace (Z.max t4 ct) with ct by lia;
+       destruct (t4 + 2000 <=? ct); fin3). }
+  replace (Z.max t4 (t4 + 2000)) with (t4 + 2000) by lia.
+  destruct (t4 + 2000 <=? tmax p t4) eqn:Epay.
+  { (* payload not complete in time *)
+    unfold spec_outcome. cbn [Z.eqb].
+    destruct (split_tr_sound _ _ _ _ Ep) as [Hr4 _].
+    destruct c as [[ct rst]|]; [|fin3].
+    cbn in Hc4. destruct Hc4 as [Hc41 Hc42].
+    assert (tmax p t4 <= ct). { apply tmax_le; [lia|]. subst r4. apply Forall_app in Hc42. tauto. }
+    assert (E : t4 + 2000 <=? ct = true) by lia. rewrite E. fin3. }
+  (* a complete frame *)
+  rewrite snds_map. cbn [now C].
+  destruct (split_tr_sound _ _ _ _ Ep) as [Hr4 _].
+  exists t4, v. split; [unfold limit; lia|].
+  split. { pose proof (tmax_ge p t4). pose proof (tmax_ge a3 t1). lia. }
+  split.
+  { exists (((t1, b1) :: a3) ++ p). subst r1 r4. split; [rewrite <- app_assoc; reflexivity|].
+    assert (Ht : forall (a b : list (Z * Z)) m, tmax (a ++ b) m = tmax b (tmax a m)).
+    { induction a as [|[t x] a IH]; intros; cbn; [reflexivity|]. apply IH. }
+    rewrite Ht. cbn [tmax]. replace (Z.max nw t1) with t1 by lia. reflexivity. }
+  destruct (bin_loop M unmarshal f (C (tmax p t4) r5 c)); reflexivity.
+Qed.
+
+(* THE REFINEMENT: on every sorted timed stream, with or without a close after it, the binary
+   read loop delivers exactly the frames of the reference reading, at their completion
+   times, allocates only below the limit, and ends as the reference reading says. *)
+Theorem bin_refines : forall fuel tb nw c,
+  tb_sorted nw tb = true -> close_after c nw tb -> (length tb < fuel)%nat ->
+  deliveries (fst (bin fuel (C nw tb c))) = map (fun g => (snd g, unmarshal (fst g))) (fst (walk_bin fuel tb)) /\
+  Forall (fun n => n < limit) (allocs (fst (bin fuel (C nw tb c)))) /\
+  snd (bin fuel (C nw tb c)) = spec_outcome (snd (walk_bin fuel tb)) c.
+Proof.
+  induction fuel as [|f IH]; intros tb nw c Hs Hc Hf; [lia|].
+  pose proof (bin_step f nw tb c Hs Hc) as Hstep.
+  cbn [walk_bin]. destruct (next_frame tb) as [p te rest|t k|] eqn:En.
+  - destruct Hstep as (t4 & n & Hn & Hte & (a & Ha & Hta) & Heq). rewrite Heq. cbn [fst snd deliveries allocs].
+    assert (Hlen : (length rest < f)%nat).
+    { subst tb. rewrite app_length in Hf.
+      assert (a <> []). { intro; subst a. cbn in *. unfold next_frame in En. destruct rest as [|[t1 b1] r]; [discriminate|].
+        destruct (split_tr 4 ((t1, b1) :: r) []) as [[h r']|] eqn:E4; [|discriminate].
+        (* a frame consumes at least its header *)
+        apply split_tr_sound in E4. destruct E4 as [E4 Hl].
+        destruct (t1 + inframe <=? tmax h t1); [discriminate|].
+        destruct (limit <=? u32le (snds h)); [discriminate|].
+        destruct (split_tr (u32le (snds h)) r' []) as [[pp rr]|] eqn:Ep; [|discriminate].
+        destruct (tmax h t1 + inframe <=? tmax pp (tmax h t1)); [discriminate|].
+        inversion En; subst. apply split_tr_sound in Ep. destruct Ep as [Ep _].
+        assert (length ((t1, b1) :: r) = length (h ++ pp ++ (t1, b1) :: r))%nat by (rewrite E4 at 1; rewrite Ep; reflexivity).
+        rewrite !app_length in H. unfold zlen in Hl. cbn [length] in H. lia. }
+      destruct a; [congruence|]. cbn [length] in Hf. lia. }
+    assert (Hs' : tb_sorted te rest = true). { subst tb te. apply tb_sorted_app. exact Hs. }
+    assert (Hc' : close_after c te rest). { subst tb te. apply close_after_suffix. exact Hc. }
+    destruct (IH rest te c Hs' Hc' Hlen) as (H1 & H2 & H3).
+    destruct (walk_bin f rest) as [g e] eqn:Ew. cbn [fst snd map] in *.
+    rewrite H1. split; [reflexivity|]. split; [constructor; assumption|exact H3].
+  - destruct Hstep as (H1 & H2 & H3). cbn [fst snd map]. rewrite H1. auto.
+  - rewrite Hstep. cbn. auto.
+Qed.
+
+End Reader.
